@@ -35,11 +35,18 @@ type c15Case struct {
 	Config bool      `json:"config"` // rich unrelated configuration
 	Steps  []c15Step `json:"steps"`
 	Wipe   bool      `json:"wipe,omitempty"` // the session ends with `git-bug wipe`
+	// From: where the user types the commands: "" the top of the main working tree, "linked" a linked working tree
+	// (git worktree add), "subdir" a sub-directory. It is the same repository.
+	From string `json:"from,omitempty"`
 }
 
 func genC15(t *rapid.T) c15Case {
 	c := c15Case{Seed: rapid.Uint64().Draw(t, "seed"), Head: rapid.SampledFrom([]string{"branch", "branch", "detached", "unborn"}).Draw(t, "head"),
 		Dirty: rapid.Bool().Draw(t, "dirty"), Config: rapid.IntRange(0, 3).Draw(t, "config") > 0}
+	c.From = rapid.SampledFrom([]string{"", "", "", "linked", "subdir"}).Draw(t, "from")
+	if c.Head == "unborn" && c.From == "linked" {
+		c.From = "subdir" // a linked working tree needs a commit to check out
+	}
 	text := rapid.OneOf(rapid.SampledFrom([]string{"plain", "with \"quotes\" and $vars", "unicode é 日本 🐛", "-starts-with-dash", "multi\nline"}), GenTitle())
 	one := rapid.Custom(func(t *rapid.T) c15Step {
 		return c15Step{Kind: rapid.SampledFrom([]string{"new", "new", "comment", "comment", "title", "close", "open", "label", "rm", "select", "deselect", "push", "push", "pull", "pull", "peeredit", "peeredit", "attach", "show", "ls", "gc", "bridgeconf", "bridgerm", "longsession"}).Draw(t, "kind"),
@@ -252,8 +259,27 @@ func runC15(tb report.TB, rep *report.Reporter, c c15Case) {
 	}
 	fail := func(sig, detail string) bool { return rep.Fail(tb, "C15/"+sig, detail, c) }
 
+	typedIn := host
+	switch c.From {
+	case "linked":
+		typedIn = filepath.Join(root, "host-linked-tree")
+		if res := RunGit(host, "worktree", "add", "-q", typedIn, "-b", "in-the-linked-tree"); res.Code != 0 {
+			tb.Fatalf("harness: worktree add: %s", res.Out)
+		}
+	case "subdir":
+		typedIn = filepath.Join(host, "docs", "deep")
+		if err := os.MkdirAll(typedIn, 0o755); err != nil {
+			tb.Fatalf("harness: %v", err)
+		}
+		_ = os.WriteFile(filepath.Join(typedIn, "note.txt"), []byte("untracked\n"), 0o644)
+	}
 	before := hostState(host)
-	run := func(dir string, args ...string) CLIResult { return RunCLI(dir, args...) }
+	run := func(dir string, args ...string) CLIResult {
+		if dir == host {
+			dir = typedIn
+		}
+		return RunCLI(dir, args...)
+	}
 	if res := run(host, "user", "new", "-n", "Host Bugger", "-e", "hb@example.org", "--non-interactive"); res.Code != 0 {
 		tb.Fatalf("harness: user new: %s", res.Out)
 	}
@@ -452,7 +478,7 @@ func runC15(tb report.TB, rep *report.Reporter, c c15Case) {
 	}
 	after := hostState(host)
 	rep.Case(strings.Join(kinds, ","), (nPush+nPull) > 0 && (nAttach > 0 || merged),
-		[]string{"head:" + c.Head, fmt.Sprintf("dirty:%v", c.Dirty), fmt.Sprintf("rich-config:%v", c.Config), fmt.Sprintf("merged:%v", merged), fmt.Sprintf("attachments:%v", nAttach > 0), fmt.Sprintf("gc-between-commands:%v", nGC > 0), fmt.Sprintf("several-attachment-operations-in-one-commit:%v", nMultiAttach > 0), fmt.Sprintf("bridge-configured:%v", nBridge > 0), fmt.Sprintf("stock-git-writes-during-a-long-session:%v", nLong > 0), fmt.Sprintf("ends-with-wipe:%v", c.Wipe)}, c)
+		[]string{"head:" + c.Head, fmt.Sprintf("dirty:%v", c.Dirty), fmt.Sprintf("rich-config:%v", c.Config), fmt.Sprintf("merged:%v", merged), fmt.Sprintf("attachments:%v", nAttach > 0), fmt.Sprintf("gc-between-commands:%v", nGC > 0), fmt.Sprintf("several-attachment-operations-in-one-commit:%v", nMultiAttach > 0), fmt.Sprintf("bridge-configured:%v", nBridge > 0), fmt.Sprintf("stock-git-writes-during-a-long-session:%v", nLong > 0), fmt.Sprintf("ends-with-wipe:%v", c.Wipe), "commands-typed-in:" + c.From}, c)
 	if aspect, detail := before.diff(after); aspect != "" {
 		if fail("host-repository-disturbed/"+aspect, detail) {
 			return
